@@ -112,7 +112,7 @@ def lean_obligations(prop):
     if os.path.exists(os.path.join(LEAN, "GcArena", "Props", f"{prop}s.lean")):
         comp = _lean_obligations_one(prop + "s")
         if not os.path.exists(os.path.join(LEAN, "GcArena", "Props", f"{prop}.lean")):
-            return comp
+            return _apply_lock(prop, comp)
         for k in ("obligations", "discharged"):
             main[k] += comp[k]
         for k in ("theorems", "open", "forbidden"):
@@ -123,7 +123,26 @@ def lean_obligations(prop):
         main["module"] += " " + comp["module"]
         if main["forbidden"]:
             main["discharged"] = 0
-    return main
+    return _apply_lock(prop, main)
+
+
+def _apply_lock(prop, res):
+    """lib/obligations.lock.json lists, per property, the theorem names that make up the claim.  A
+    listed theorem that is no longer there (deleted or renamed to make a build pass) is an open
+    obligation: the property is then no longer shown to hold."""
+    path = os.path.join(ROOT, "lib", "obligations.lock.json")
+    if not os.path.exists(path):
+        return res
+    try:
+        lock = json.load(open(path)).get(prop, [])
+    except Exception:
+        return res
+    have = {t["name"] for t in res.get("theorems", [])} | set(res.get("open", []))
+    missing = [n for n in lock if n not in have]
+    if missing and res.get("build_ok"):
+        res["open"] = res.get("open", []) + [m + " (listed in obligations.lock.json, no longer present)" for m in missing]
+        res["obligations"] += len(missing)
+    return res
 
 
 def _lean_obligations_one(prop):
